@@ -1,6 +1,7 @@
 package main
 
 import (
+	"go/constant"
 	"fmt"
 	"go/token"
 	"go/types"
@@ -124,8 +125,8 @@ func (vc *VC) call(fr *Frame, st *State, instr *ssa.Call, c *ssa.CallCommon) {
 	fn, mc := vc.resolveStatic(fr, c)
 	if fn == nil {
 		// call through a function value: a function-typed struct field may carry a contract
-		if u, ok := c.Value.(*ssa.UnOp); ok && u.Op == token.MUL {
-			if g, ok := u.X.(*ssa.Global); ok && g.Pkg != nil {
+		if g := funcValueGlobal(c.Value); g != nil {
+			{
 				key := g.Pkg.Pkg.Path() + "." + g.Name()
 				if con := vc.eng.contractsByKey[key]; con != nil {
 					vc.dynSig = sig
@@ -367,11 +368,9 @@ func (vc *VC) callMods(fr *Frame, c *ssa.CallCommon, mods map[string]bool, depth
 				return vc.contractMods(con, mods)
 			}
 		}
-		if u, ok := c.Value.(*ssa.UnOp); ok && u.Op == token.MUL {
-			if g, ok := u.X.(*ssa.Global); ok && g.Pkg != nil {
-				if con := vc.eng.contractsByKey[g.Pkg.Pkg.Path()+"."+g.Name()]; con != nil {
-					return vc.contractMods(con, mods)
-				}
+		if g := funcValueGlobal(c.Value); g != nil {
+			if con := vc.eng.contractsByKey[g.Pkg.Pkg.Path()+"."+g.Name()]; con != nil {
+				return vc.contractMods(con, mods)
 			}
 		}
 		if key, _, ok := vc.funcFieldKey(c.Value); ok {
@@ -658,6 +657,47 @@ func (vc *VC) copyElems(fr *Frame, st *State, dbase, doff, sbase, soff, n Term, 
 }
 
 // ---------- native models of library functions ----------
+
+// funcValueGlobal returns the package variable a called function value was read from: the variable itself
+// (`handler(x)`) or an element of a package-level map of functions (`if f, ok := registry[k]; ok { f(x) }`).
+func funcValueGlobal(v ssa.Value) *ssa.Global {
+	if ex, ok := v.(*ssa.Extract); ok {
+		if lk, ok := ex.Tuple.(*ssa.Lookup); ok && ex.Index == 0 {
+			v = lk
+		}
+	}
+	if lk, ok := v.(*ssa.Lookup); ok {
+		if _, isMap := lk.X.Type().Underlying().(*types.Map); isMap {
+			v = lk.X
+		}
+	}
+	if u, ok := v.(*ssa.UnOp); ok && u.Op == token.MUL {
+		if g, ok := u.X.(*ssa.Global); ok && g.Pkg != nil {
+			return g
+		}
+	}
+	return nil
+}
+
+// alwaysReturnsTrue: every return of the (single-result, boolean) callback returns the constant true.
+func alwaysReturnsTrue(fn *ssa.Function) bool {
+	found := false
+	for _, b := range fn.Blocks {
+		for _, ins := range b.Instrs {
+			if r, ok := ins.(*ssa.Return); ok {
+				if len(r.Results) != 1 {
+					return false
+				}
+				c, isC := r.Results[0].(*ssa.Const)
+				if !isC || c.Value == nil || c.Value.Kind() != constant.Bool || !constant.BoolVal(c.Value) {
+					return false
+				}
+				found = true
+			}
+		}
+	}
+	return found
+}
 
 // sortedSliceArg returns the slice-typed SSA value behind the sort.Interface argument of sort.Sort / sort.Stable
 // (`sort.Sort(ByName(xs))`: a named slice type converted from / being a slice), or nil.
@@ -1350,6 +1390,26 @@ func (vc *VC) iterateCallback(fr *Frame, st *State, instr *ssa.Call, c *ssa.Call
 	}
 	// 5. after the call: any number of executions happened (cbK of them: the invariant was assumed for cbK above)
 	cbIndex = cbK
+	if con.Completes != nil && alwaysReturnsTrue(cbFn) {
+		// the callback never stops the iteration: it ran for every element
+		func() {
+			defer func() {
+				if r := recover(); r != nil {
+					if se, ok := r.(specErr); ok {
+						vc.bindError(con.Completes, string(se))
+						return
+					}
+					panic(r)
+				}
+			}()
+			envC := &Env{vc: vc, fr: nil, st: st, old: st, names: map[string]Bound{}, nq: new(int), con: con, pkg: envY.pkg}
+			if b, ok := envY.names["recv"]; ok {
+				envC.names["recv"] = b
+			}
+			n, _ := vc.specExpr(envC, con.Completes.Expr)
+			vc.q.Assert(Implies(st.reach, Eq(cbK, n)))
+		}()
+	}
 	rs := vc.freshResults(fr, st, sig, "ret_"+calleeName)
 	vc.assumeWF(st, rs, sig)
 	vc.setResults(fr, instr, rs)
